@@ -10,8 +10,10 @@
          cvals += tvals
      return sptensor(csubs, cvals, self.shape)                        (division: self.vals / np.maximum(eps, cvals))
 
-   Column arrays are lists with one value per stored row; `a * b`, `a += b` on columns are zipw.  The result keeps
-   EVERY stored row (no filter on zero products; the dense branch has one) — see finding C03-K2.  The eps clamp of the
+   Column arrays are lists with one value per stored row; `a * b`, `a += b` on columns are zipw.  Since /repo d4293a0 (findings
+   C03-K1 / C03-K2 repaired) __mul__ ends with keep = cvals[:, 0] != 0; return sptensor(csubs[keep], cvals[keep], shape) and both
+   branches start with `if self.nnz == 0: return self.copy()`: impl_mul_k is the intermediate (csubs, cvals), impl_mul_k_filtered the
+   code as it is.  The eps clamp of the
    division is part of the element function dv handed to impl_div_k (instance: kdivz below).  Definitions only. *)
 From Coq Require Import List ZArith Bool Arith QArith Qabs Qcanon.
 From PV Require Import Base.Index Base.Sum Np.Array Model.Sparse Model.Repr Model.Harness Model.C03Ops Model.C03Gen Model.C03Chk.
@@ -35,8 +37,7 @@ Definition kr_zeros (vals : list V) : list V := map (fun _ => v0) vals.
 Definition mul_k_vals (A : sparse V) (K : ktensor V) : list V :=
   kr_accum K (ssubs A) (length (sshape A)) (fun r => map (vmul (nth r (kweights K) v0)) (svals A)) (kr_zeros (svals A)).
 Definition impl_mul_k (A : sparse V) (K : ktensor V) : sparse V := mkSp (sshape A) (ssubs A) (mul_k_vals A K).
-(* S * K with the filter the dense branch has (keep = cvals[:, 0] != 0; sptensor(csubs[keep], cvals[keep], shape)):
-   the repair proposed for finding C03-K2 (fixes/C03-7-K1-K2.diff) *)
+(* S * K as the code is: the loops, then keep = cvals[:, 0] != 0; sptensor(csubs[keep], cvals[keep], shape) *)
 Definition impl_mul_k_filtered (isz : V -> bool) (A : sparse V) (K : ktensor V) : sparse V :=
   of_entries (sshape A) (drop_zeros isz (combine (ssubs A) (mul_k_vals A K))).
 (* the Kruskal values gathered at the stored rows (the `vals` array of __truediv__) *)
@@ -68,7 +69,7 @@ Definition spec_div_k (A : sparse Z) (K : ktensor Z) : dense xval := spec_dense2
 Definition xsp_raw_close_k (O R : sparse xval) : bool :=
   nvec_eqb (sshape O) (sshape R) && nmat_eqb (ssubs O) (ssubs R) && list_eqb xclose (svals O) (svals R).
 Definition mul_k_model_ok (O A : sparse Z) (K : ktensor Z) : bool := sp_raw_eqb O (zmul_k A K).
-(* the same tie for the tree with fixes/C03-7-K1-K2.diff applied (c03.py: KRUSKAL_FILTERED = True) *)
+(* the tie that runs (c03.py: KRUSKAL_FILTERED = True): the code as it is since d4293a0 *)
 Definition mul_k_filtered_model_ok (O A : sparse Z) (K : ktensor Z) : bool :=
   sp_raw_eqb O (impl_mul_k_filtered 0 Z.add Z.mul zisz A K).
 Definition div_k_model_ok (O : sparse xval) (A : sparse Z) (K : ktensor Z) : bool := xsp_raw_close_k O (zdiv_k A K).
